@@ -145,6 +145,8 @@ package registry
 //@   ensures{C02,C09} other-objects-kept: forall((*Var)(p), old(allocated(p)) ==> p.vr == old(p.vr))
 //@   ensures{C02} appended-in-order: len(m.vars) == old(len(m.vars)) + 1 && m.vars[len(m.vars)-1] == v && forall(k, 0 <= k && k < old(len(m.vars)) ==> m.vars[k] == old(m.vars[k]))
 //@   ensures vars-non-nil: varsNonNil(m)
+//@   ensures{C01,C10,C11} variable-imports-cover-its-type: forall((*types.Package)(p), refs(vr.Type(), p) ==> dom(v.imports, canon(p)))
+//@   ensures{C10,C11} variable-imports-are-registry-entries: entriesHavePkg(v.imports)
 //@   ensures{C12} new-name-unique: forall(k, 0 <= k && k < len(m.vars) - 1 ==> m.vars[k].Name != v.Name)
 //@   ensures{C13} name-kept-unless-conflict: forallEv(i, evIs(i, "call:registry.varName") ==> evArg(i, 0) == vr && evArg(i, 1) == suffix && (v.Name == evRes(i)
 //@       || existsEv(q, evIs(q, "call:registry.Registry.searchImport") && evArg(q, 1) == evRes(i) && evRes(q, 1))
@@ -172,29 +174,58 @@ package registry
 //@   loop 1 invariant suffixed-only: forall((*Var)(p), old(allocated(p)) ==> hasPrefix(p.Name, old(p.Name)))
 //@   ensures suffixed-only: forall((*Var)(p), old(allocated(p)) ==> hasPrefix(p.Name, old(p.Name)))
 
+//@ -- A-typestring: refs(t, p) = "types.TypeString(t, qf) consults qf for package p". The axioms below
+//@ -- unfold it for the argument of this call, case by case as go/types/typestring.go prints types;
+//@ -- sub-terms are handled by the recursive calls' contract.
+//@ define refs(t, p) = uf("types.refs", Bool, t, p)
+//@ define cov(imports, p) = dom(imports, canon(p))
+//@ define keysKept(imports) = forall(string(k), old(dom(imports, k)) ==> dom(imports, k))
+//@ define piInv(m, imports) = wfK(m.registry) && entriesHavePkg(imports) && keysKept(imports) && forall((*Package)(q), old(allocated(q)) ==> q.pkg == old(q.pkg))
+
 //@ func registry.MethodScope.populateImports
-//@   props C11
+//@   props C11 C01
 //@   safety C19
 //@   modifies H:registry.Package#, M:string:*registry.Package#, A:string#
 //@   requires m.registry != nil && wfK(m.registry) && imports != nil && imports != m.registry.imports && entriesHavePkg(imports)
 //@   decreases uf("types.size", Int, t)
-//@   loop 1 invariant wf: wfK(m.registry) && entriesHavePkg(imports) && i >= 0
-//@   loop 1 invariant packages-kept: forall((*Package)(p), old(allocated(p)) ==> p.pkg == old(p.pkg))
-//@   loop 2 invariant wf: wfK(m.registry) && entriesHavePkg(imports) && i >= 0
-//@   loop 2 invariant packages-kept: forall((*Package)(p), old(allocated(p)) ==> p.pkg == old(p.pkg))
-//@   loop 3 invariant wf: wfK(m.registry) && entriesHavePkg(imports) && i >= 0
-//@   loop 3 invariant packages-kept: forall((*Package)(p), old(allocated(p)) ==> p.pkg == old(p.pkg))
-//@   loop 4 invariant wf: wfK(m.registry) && entriesHavePkg(imports) && i >= 0
-//@   loop 4 invariant packages-kept: forall((*Package)(p), old(allocated(p)) ==> p.pkg == old(p.pkg))
-//@   loop 5 invariant wf: wfK(m.registry) && entriesHavePkg(imports) && i >= 0
-//@   loop 5 invariant packages-kept: forall((*Package)(p), old(allocated(p)) ==> p.pkg == old(p.pkg))
-//@   loop 6 invariant wf: wfK(m.registry) && entriesHavePkg(imports) && i >= 0
-//@   loop 6 invariant packages-kept: forall((*Package)(p), old(allocated(p)) ==> p.pkg == old(p.pkg))
-//@   loop 7 invariant wf: wfK(m.registry) && entriesHavePkg(imports) && i >= 0
-//@   loop 7 invariant packages-kept: forall((*Package)(p), old(allocated(p)) ==> p.pkg == old(p.pkg))
+//@   axiom refs-nil: t == nil ==> forall((*types.Package)(p), !refs(t, p))
+//@   axiom refs-named: isType(t, *types.Named) ==> forall((*types.Package)(p), refs(t, p) <==> ((p != nil && as(t, *types.Named).Obj().Pkg() == p) || (as(t, *types.Named).TypeArgs() != nil && exists(k, 0 <= k && k < as(t, *types.Named).TypeArgs().Len() && refs(as(t, *types.Named).TypeArgs().At(k), p)))))
+//@   axiom refs-alias: isType(t, *types.Alias) ==> forall((*types.Package)(p), refs(t, p) <==> ((p != nil && as(t, *types.Alias).Obj().Pkg() == p) || (as(t, *types.Alias).TypeArgs() != nil && exists(k, 0 <= k && k < as(t, *types.Alias).TypeArgs().Len() && refs(as(t, *types.Alias).TypeArgs().At(k), p)))))
+//@   axiom refs-basic: isType(t, *types.Basic) ==> forall((*types.Package)(p), refs(t, p) <==> (as(t, *types.Basic).Kind() == 18 && p == global("go/types.Unsafe")))
+//@   axiom refs-union: isType(t, *types.Union) ==> forall((*types.Package)(p), refs(t, p) <==> exists(k, 0 <= k && k < as(t, *types.Union).Len() && refs(as(t, *types.Union).Term(k).Type(), p)))
+//@   axiom refs-array: isType(t, *types.Array) ==> forall((*types.Package)(p), refs(t, p) <==> refs(as(t, *types.Array).Elem(), p))
+//@   axiom refs-slice: isType(t, *types.Slice) ==> forall((*types.Package)(p), refs(t, p) <==> refs(as(t, *types.Slice).Elem(), p))
+//@   axiom refs-chan: isType(t, *types.Chan) ==> forall((*types.Package)(p), refs(t, p) <==> refs(as(t, *types.Chan).Elem(), p))
+//@   axiom refs-pointer: isType(t, *types.Pointer) ==> forall((*types.Package)(p), refs(t, p) <==> refs(as(t, *types.Pointer).Elem(), p))
+//@   axiom refs-map: isType(t, *types.Map) ==> forall((*types.Package)(p), refs(t, p) <==> (refs(as(t, *types.Map).Key(), p) || refs(as(t, *types.Map).Elem(), p)))
+//@   axiom refs-signature: isType(t, *types.Signature) ==> forall((*types.Package)(p), refs(t, p) <==> (exists(k, 0 <= k && k < as(t, *types.Signature).Params().Len() && refs(as(t, *types.Signature).Params().At(k).Type(), p)) || exists(k, 0 <= k && k < as(t, *types.Signature).Results().Len() && refs(as(t, *types.Signature).Results().At(k).Type(), p))))
+//@   axiom refs-struct: isType(t, *types.Struct) ==> forall((*types.Package)(p), refs(t, p) <==> exists(k, 0 <= k && k < as(t, *types.Struct).NumFields() && refs(as(t, *types.Struct).Field(k).Type(), p)))
+//@   axiom refs-interface: isType(t, *types.Interface) ==> forall((*types.Package)(p), refs(t, p) <==> (exists(k, 0 <= k && k < as(t, *types.Interface).NumExplicitMethods() && refs(as(t, *types.Interface).ExplicitMethod(k).Type(), p)) || exists(k, 0 <= k && k < as(t, *types.Interface).NumEmbeddeds() && refs(as(t, *types.Interface).EmbeddedType(k), p))))
+//@   axiom refs-closed-world: t != nil && !isType(t, *types.Named) && !isType(t, *types.Alias) && !isType(t, *types.Basic) && !isType(t, *types.Union) && !isType(t, *types.Array) && !isType(t, *types.Slice) && !isType(t, *types.Chan) && !isType(t, *types.Pointer) && !isType(t, *types.Map) && !isType(t, *types.Signature) && !isType(t, *types.Struct) && !isType(t, *types.Interface) ==> forall((*types.Package)(p), !refs(t, p))
+//@   axiom unsafe-package-path: global("go/types.Unsafe").Path() == "unsafe"
+//@   axiom strip-unsafe: strip("unsafe") == "unsafe" -- instance of stripVendorPath/post:no-vendor (verified, functional)
+//@   axiom refs-typeparam-tuple: (isType(t, *types.TypeParam) || isType(t, *types.Tuple)) ==> forall((*types.Package)(p), !refs(t, p))
+//@   loop 1 invariant inv: piInv(m, imports) && i >= 0
+//@   loop 1 invariant covered: (as(t, *types.Named).Obj().Pkg() != nil ==> cov(imports, as(t, *types.Named).Obj().Pkg())) && forall((*types.Package)(p), k, 0 <= k && k < i && refs(targs.At(k), p) ==> cov(imports, p))
+//@   loop 2 invariant inv: piInv(m, imports) && i >= 0
+//@   loop 2 invariant covered: (as(t, *types.Alias).Obj().Pkg() != nil ==> cov(imports, as(t, *types.Alias).Obj().Pkg())) && forall((*types.Package)(p), k, 0 <= k && k < i && refs(targs.At(k), p) ==> cov(imports, p))
+//@   loop 3 invariant inv: piInv(m, imports) && i >= 0
+//@   loop 3 invariant covered: forall((*types.Package)(p), k, 0 <= k && k < i && refs(as(t, *types.Union).Term(k).Type(), p) ==> cov(imports, p))
+//@   loop 4 invariant inv: piInv(m, imports) && i >= 0
+//@   loop 4 invariant covered: forall((*types.Package)(p), k, 0 <= k && k < i && refs(as(t, *types.Signature).Params().At(k).Type(), p) ==> cov(imports, p))
+//@   loop 5 invariant inv: piInv(m, imports) && i >= 0
+//@   loop 5 invariant covered: forall((*types.Package)(p), k, 0 <= k && k < as(t, *types.Signature).Params().Len() && refs(as(t, *types.Signature).Params().At(k).Type(), p) ==> cov(imports, p)) && forall((*types.Package)(p), k, 0 <= k && k < i && refs(as(t, *types.Signature).Results().At(k).Type(), p) ==> cov(imports, p))
+//@   loop 6 invariant inv: piInv(m, imports) && i >= 0
+//@   loop 6 invariant covered: forall((*types.Package)(p), k, 0 <= k && k < i && refs(as(t, *types.Struct).Field(k).Type(), p) ==> cov(imports, p))
+//@   loop 7 invariant inv: piInv(m, imports) && i >= 0
+//@   loop 7 invariant covered: forall((*types.Package)(p), k, 0 <= k && k < i && refs(as(t, *types.Interface).ExplicitMethod(k).Type(), p) ==> cov(imports, p))
+//@   loop 8 invariant inv: piInv(m, imports) && i >= 0
+//@   loop 8 invariant covered: forall((*types.Package)(p), k, 0 <= k && k < as(t, *types.Interface).NumExplicitMethods() && refs(as(t, *types.Interface).ExplicitMethod(k).Type(), p) ==> cov(imports, p)) && forall((*types.Package)(p), k, 0 <= k && k < i && refs(as(t, *types.Interface).EmbeddedType(k), p) ==> cov(imports, p))
 //@   ensures wf: wfK(m.registry)
 //@   ensures entries: entriesHavePkg(imports)
-//@   ensures packages-kept: forall((*Package)(p), old(allocated(p)) ==> p.pkg == old(p.pkg))
+//@   ensures packages-kept: forall((*Package)(q), old(allocated(q)) ==> q.pkg == old(q.pkg))
+//@   ensures keys-only-added: keysKept(imports)
+//@   ensures{C01,C11} every-qualified-package-imported: forall((*types.Package)(p), refs(t, p) ==> cov(imports, p))
 
 //@ -- registry invariant (K): every key of the import map is the canonical path of a non-nil
 //@ -- entry with a package object, and is never the destination package itself
